@@ -13,7 +13,8 @@
    * Method-level handlers: basex (basex.py:344-353), daun (daun.py:279-283)
      and rbasex (rbasex.py:477-481) catch ValueError around np.load and fall
      through to regeneration; dasch (dasch.py:364) and linbasex
-     (linbasex.py:578) do not catch anything.
+     (linbasex.py:578) do not catch anything (but since 0e05e8d / d536a3f a
+     raising load leaves their memory caches untouched).
    No proofs here. *)
 From Coq Require Import List NArith Arith Bool.
 From PA Require Import base.Npy.
@@ -88,18 +89,18 @@ Inductive outcome := Fresh       (* same values as with no disk cache *)
 
 (* `right a` = the stored array is the one a correct save for this request
    would have produced (possibly larger, to be cropped);
-   `shape_fits a` = the shape checks / unpacking / crops of the module go
-   through without raising;  `unpack_value_error a` = the module's
-   unpacking raises ValueError inside its try block (basex: M, Mc = load). *)
-Definition load_outcome (m : method) (right shape_fits unpack_value_error : arr -> bool)
-           (f : file) : outcome :=
+   `shape_ok a` = its shape is what the file name promises.  Since fix 7ce4ac5
+   every module checks this after loading: basex raises ValueError inside its
+   try block, daun / rbasex / linbasex treat the file as incompatible, dasch
+   skips it — in all cases the basis is regenerated (or another file used). *)
+Definition load_outcome (m : method) (right shape_ok : arr -> bool) (f : file) : outcome :=
   match parse f with
   | PErr PValue => if catches_value_error m then Fresh else Exception
   | PErr _ => Exception
   | POk a =>
       if right a then Fresh
-      else if unpack_value_error a && catches_value_error m then Fresh
-      else if shape_fits a then Different else Exception
+      else if negb (shape_ok a) then Fresh
+      else Different          (* a valid file of the right shape with other numbers: no checksum exists *)
   end.
 
 (* does the library rewrite the file during that call? (regeneration path) *)
@@ -108,3 +109,50 @@ Definition resaved (m : method) (f : file) : bool :=
   | PErr PValue => catches_value_error m
   | _ => false
   end.
+
+(* ---- atomic save (abel.tools.io.save_npy_atomic, fix 46921c4) -------------- *)
+(* Each writer writes the whole array into a temporary file of its own (the
+   name contains its pid and does not end in .npy) with any number of write
+   syscalls, and then renames it onto the basis file: os.replace is atomic.
+   A reader of the basis file therefore sees what was there before, or the
+   complete content of one of the writers. *)
+Inductive aop := ATrunc | AWrite (off : nat) (chunk : bytes) | ARename.
+
+Fixpoint awrite_ops (off : nat) (chunks : list bytes) : list aop :=
+  match chunks with
+  | [] => []
+  | c :: r => AWrite off c :: awrite_ops (off + length c) r
+  end.
+
+Definition awriter (chunks : list bytes) : list aop := ATrunc :: awrite_ops 0 chunks ++ [ARename].
+
+(* a process: its remaining syscalls and the present content of its temp file *)
+Definition aproc := (list aop * file)%type.
+
+(* one syscall of process p on (target, p) *)
+Definition astep (target : option file) (p : aproc) : option file * aproc :=
+  match p with
+  | ([], t) => (target, p)
+  | (ATrunc :: r, _) => (target, (r, []))
+  | (AWrite off c :: r, t) => (target, (r, write_at off c t))
+  | (ARename :: r, t) => (Some t, (r, t))
+  end.
+
+Fixpoint astep_nth (target : option file) (procs : list aproc) (i : nat) : option file * list aproc :=
+  match procs, i with
+  | [], _ => (target, [])
+  | p :: r, 0 => let (t', p') := astep target p in (t', p' :: r)
+  | p :: r, S j => let (t', r') := astep_nth target r j in (t', p :: r')
+  end.
+
+(* everything a reader of the basis file can see along a schedule
+   (None = the file does not exist) *)
+Fixpoint aobserved (target : option file) (procs : list aproc) (sched : list nat) : list (option file) :=
+  target :: match sched with
+            | [] => []
+            | i :: s => let (t', procs') := astep_nth target procs i in aobserved t' procs' s
+            end.
+
+(* a process that saves the array a with some chunking of its bytes *)
+Definition is_atomic_save (a : arr) (p : aproc) : Prop :=
+  exists chunks, concat chunks = serialize a /\ fst p = awriter chunks.
